@@ -96,7 +96,8 @@ def run(ctx):
         pushes = f.calls_to("std::vec::Vec::<T, A>::push")
         clears = f.calls_to("std::vec::Vec::<T, A>::clear")
         accepts = f.calls_to("BufferConsumer::accept")
-        if pushes and clears and accepts:
+        takes = [(b, t) for b, t in f.calls_to("std::mem::take", "std::mem::replace")]
+        if pushes and (clears or takes) and accepts:
             bufs.append((f, pushes, clears, accepts))
     ctx.floor("R15.3", "buffer add functions (push + hand-over + clear)", len(bufs), 1)
     for f, pushes, clears, accepts in bufs:
@@ -108,6 +109,14 @@ def run(ctx):
         vec = f.op_origin(pushes[0][1]["args"][0])
         ctx.check(not bad and f.op_origin(pushes[0][1]["args"][1]) == ("param", 2), "R15.3", "%s|push-exactly-once" % f.name,
                   "every call stores the incoming access exactly once, on every path", f.where(pushes[0][0]))
+        if not clears:
+            # hand-over by std::mem::take / replace: the buffer itself is moved out (emptied) into the event
+            okt = False
+            for ab, at in accepts:
+                ev = f.op_origin(at["args"][1])
+                if ev[0] == "agg" and ev[2] == "Full" and is_call_to(ev[3][0][1], "std::mem::take", "std::mem::replace") and same_value(ev[3][0][1][2][0], vec):
+                    okt = True
+            ctx.check(okt, "R15.3", "%s|handover-moves-buffer" % f.name, "the full buffer is moved out (mem::take) into the Full event, which empties it", f.where())
         for cb, ct in clears:
             cvec = f.op_origin(ct["args"][0])
             doms = [ab for ab, at in accepts if f.block_dominates(ab, cb) and ab != cb]
